@@ -8,7 +8,7 @@
   of its ranks holds exactly `S` (`solidFor`); `support votes S` is the number of such votes.  A refusal
   (`Err.notImplemented`, unresolved tie) is an allowed outcome, so the theorems speak about `.ok` outcomes.
 -/
-import VotelibProofs.Lemmas.STVTotal
+import VotelibProofs.Lemmas.STVMutual
 import VotelibModel.Gen.Quota
 namespace VL.C04
 open VL VL.STV
@@ -86,6 +86,23 @@ theorem majority_first_choice_wins {E : Engine} (hE : EngineOK E) {cfg : Cfg} {v
   rcases hm with ⟨hs0, _⟩ | hs1
   · rw [hs0] at hsum; simp [sumSeats] at hsum
   · rw [hs1]; simp [distributionToSelection, sortDesc, insertDesc]
+
+/-! ## mutual majority (single seat) -/
+
+/-- **Mutual majority.**  In a single-seat count (`eliminate_step = -1`, any transferer meeting the
+    specification, a quota of at least half the votes), if the ballots that rank exactly the candidates `S`
+    above everyone else hold more than half of all votes cast — and none of these ballots has a shared rank —
+    then the winner, whenever one is returned, is a member of `S`. -/
+theorem mutual_majority {E : Engine} (hE : EngineOK E) {cfg : Cfg} {votes : Profile} (hwf : WFVotes votes)
+    {S : List Cand} (hS : S ≠ []) (hstrict : ∀ bw ∈ votes, solidFor bw.1 S = true → noShared bw.1 = true)
+    (hmaj : totalVotes votes / 2 < support votes S) (hstep : cfg.step = some (-1))
+    (hq : QuotaAtLeastHalf cfg votes) {ds : List Draw} {l : List Cand}
+    (h : selectorEvaluate E cfg votes 1 ds = .ok l) : ∃ c ∈ S, l = [c] := by
+  obtain ⟨st, hr, hsum, rfl⟩ := selectorEvaluate_ok h
+  have hm := mut_reach hE ⟨hwf, hstrict, hmaj, hstep, hq⟩ hS hr
+  rcases hm with ⟨hs0, _⟩ | ⟨c, hcS, hs1⟩
+  · rw [hs0] at hsum; simp [sumSeats] at hsum
+  · exact ⟨c, hcS, by rw [hs1]; simp [distributionToSelection, sortDesc, insertDesc]⟩
 
 /-! ## result shape -/
 
@@ -198,6 +215,14 @@ example : totalVotes fVotes / 2 < firstPrefTotal fVotes 0 ∧ firstPrefTotal fVo
     computeQuota wCfg (totalVotes fVotes) 1 = some 2 ∧ selectorEvaluate gregory wCfg fVotes 1 [] = .ok [0] := by
   decide +kernel
 example : pscCheck mVotes 6 [0] = true ∧ pscCheck mVotes 6 [1] = false := by decide +kernel
+/-- a majority coalition {a, b} (a>b>c ×3, b>a>c ×3 of 11) against c with 5 first preferences: b wins -/
+def cVotes : Profile := [([.one 0, .one 1, .one 2], 3), ([.one 1, .one 0, .one 2], 3), ([.one 2], 5)]
+example : totalVotes cVotes / 2 < support cVotes [0, 1] ∧
+    (∀ bw ∈ cVotes, solidFor bw.1 [0, 1] = true → noShared bw.1 = true) ∧
+    selectorEvaluate gregory wCfg cVotes 1 [] = .error .notImplemented := by decide +kernel
+def cVotes2 : Profile := [([.one 0, .one 1, .one 2], 4), ([.one 1, .one 0, .one 2], 3), ([.one 2], 6)]
+example : totalVotes cVotes2 / 2 < support cVotes2 [0, 1] ∧ firstPrefTotal cVotes2 2 = 6 ∧
+    selectorEvaluate gregory wCfg cVotes2 1 [] = .ok [0] := by decide +kernel
 /-- the profile on which the count stalled before the repair b992cbb: `{('c','a'):2, ('b',):8}`, two seats -/
 def lVotes : Profile := [([.one 2, .one 0], 2), ([.one 1], 8)]
 example : 2 ≤ (allRanked lVotes).length ∧ selectorEvaluate gregory wCfg lVotes 2 [] = .ok [1, 2] := by decide +kernel
